@@ -24,9 +24,9 @@
 //!   * glyph 0 (.notdef) on the font WITH U+25CC, or a panic, is a violation.
 //! Output: `viol ...`, `case ...` (sample for the Python re-check), `stat ...` per pool, `done`.
 use crate::fontgen::{self, FontSpec};
-use crate::shp::{dir_name, fmt_req, parse_req, Req};
+use crate::shp::{dir_name, fmt_req, level_of, parse_req, Req};
 use crate::util::*;
-use rustybuzz::{ttf_parser, BufferClusterLevel, BufferFlags, Direction, Face, Script, UnicodeBuffer};
+use rustybuzz::{ttf_parser, BufferFlags, Direction, Face, Script, UnicodeBuffer};
 use std::collections::HashMap;
 use std::io::Read;
 use std::sync::Arc;
@@ -38,6 +38,7 @@ struct Pool {
     text: Vec<u32>,
     font: Vec<u32>,
     shaper: String,
+    extra: Vec<Vec<u32>>,
 }
 
 #[derive(Default)]
@@ -88,6 +89,16 @@ fn read_spec() -> Spec {
                     }
                 }
                 sp.pools.push(p);
+            }
+            Some("str") => {
+                // `str <pool> <cp,cp,...>`: an additional string for that pool (grammar-generated syllables)
+                let pool = it.next().unwrap_or("?");
+                let t = hexlist(it.next().unwrap_or(""));
+                if let Some(p) = sp.pools.iter_mut().find(|p| p.name == pool) {
+                    if !t.is_empty() {
+                        p.extra.push(t);
+                    }
+                }
             }
             Some("case") => {
                 let pool = it.next().unwrap_or("?").to_string();
@@ -175,7 +186,7 @@ fn shape(face: &Face, req: &Req) -> Result<Vec<(u32, u32)>, String> {
             }
         }
         b.set_flags(BufferFlags::from_bits_truncate(req.flags));
-        b.set_cluster_level(BufferClusterLevel::MonotoneGraphemes);
+        b.set_cluster_level(level_of(req.level));
         let gb = rustybuzz::shape(&face, &[], b);
         gb.glyph_infos().iter().map(|g| (g.glyph_id, g.cluster)).collect::<Vec<_>>()
     })
@@ -195,6 +206,7 @@ struct Stat {
     notdef_dotted: u64,
     known_forced: u64,
     known_zwnj: u64,
+    level1: u64,
     viol: u64,
 }
 
@@ -536,6 +548,23 @@ impl<'a> Runner<'a> {
                     }
                 }
             }
+            // beyond the property's cluster level: MonotoneCharacters (level 1), plain variant.  The same ownership
+            // rule applies; this is what makes cluster merging in the normalizer / shapers observable (at level 0
+            // marks already share their base's cluster before any shaper runs).
+            // Only on the font WITH U+25CC: without it the Indic shaper leaves broken clusters un-repaired and its
+            // matra move gives non-monotone clusters at level 1 (e.g. Malayalam <0D46 0D3E 0D3E> -> clusters 1,0,0),
+            // the level-1 face of the listed class indic_zwnj_cluster_split (reported to the lead for C02).
+            // and not for the Indic shaper, whose matra move is non-monotone at level 1 also with U+25CC
+            // (Oriya <0B47 0B4D 200D 0B48> -> clusters 0,1,0,0,0,0).
+            if f25 && self.pool.shaper != "indic" {
+                req.flags = 0;
+                req.script = self.pool.script.clone();
+                req.dir = None;
+                req.level = 1;
+                self.one_face(&faces[f25 as usize], &req, f25);
+                self.stat.level1 += 1;
+                req.level = 0;
+            }
         }
     }
 }
@@ -555,7 +584,7 @@ fn run_pool(cx: &Ctx, pool: &Pool, maxlen: usize, nrandom: u64, rlen: u64, seed:
         pw *= n;
         total += pw * if l <= full_upto { 32 } else { 8 };
     }
-    total += nrandom * 8;
+    total += (nrandom + pool.extra.len() as u64) * 8;
     let mut r = Runner { cx, pool, fonts, stat: Stat::default(), lines: Vec::new(), sample_every: if sample == 0 { 0 } else { (total / sample).max(1) }, viol_limit: 6, per_class: HashMap::new() };
     // exhaustive
     let mut idx: Vec<usize> = Vec::new();
@@ -583,6 +612,10 @@ fn run_pool(cx: &Ctx, pool: &Pool, maxlen: usize, nrandom: u64, rlen: u64, seed:
                 idx[p] = 0;
             }
         }
+    }
+    // grammar-generated strings supplied by the driver
+    for (k, t) in pool.extra.iter().enumerate() {
+        r.variants(&faces, t, false, k as u64);
     }
     // seeded random longer strings
     let mut rng = Rng::new(seed ^ (pool.name.bytes().fold(0u64, |a, b| a.wrapping_mul(131).wrapping_add(b as u64))));
@@ -665,8 +698,8 @@ fn search(args: &[String]) {
             println!("{}", l);
         }
         println!(
-            "stat pool={} strings={} shapes={} dotted={} reordered={} decomposed={} composed={} merged={} removed={} hidden={} notdef_dotted={} known_forced={} known_zwnj={} viol={} ms={}",
-            pools[*i].name, st.strings, st.shapes, st.dotted, st.reordered, st.decomposed, st.composed, st.merged, st.removed, st.hidden, st.notdef_dotted, st.known_forced, st.known_zwnj, st.viol, ms
+            "stat pool={} strings={} shapes={} dotted={} reordered={} decomposed={} composed={} merged={} removed={} hidden={} notdef_dotted={} known_forced={} known_zwnj={} level1={} viol={} ms={}",
+            pools[*i].name, st.strings, st.shapes, st.dotted, st.reordered, st.decomposed, st.composed, st.merged, st.removed, st.hidden, st.notdef_dotted, st.known_forced, st.known_zwnj, st.level1, st.viol, ms
         );
     }
     let _ = dir_name(None);
